@@ -63,6 +63,8 @@ type rendered struct {
 
 func (c Case) quals() (tq, idq string) {
 	switch {
+	case c.Q.Derived != nil:
+		return "d.", "d." // the derived table's alias
 	case c.Q.Alias:
 		return "q.", "q."
 	case c.Q.Qualify:
@@ -92,20 +94,50 @@ func (c Case) sCol(k Cond) (name string, search bool) {
 	return tq + "s", true
 }
 
-// fromClause renders FROM t [AS q] [JOIN u [AS v] ON ... [AND cond]].
+// tableRef renders table t in a FROM clause: t [AS q] or the derived table (SELECT id, s, p, n FROM t [AS q] [WHERE ..]) AS d.
+func (c Case) tableRef() string {
+	d := c.Q.Derived
+	if d == nil {
+		if c.Q.Alias {
+			return "t AS q"
+		}
+		return "t"
+	}
+	iq, from := "", "t"
+	switch d.Cols {
+	case "qualified":
+		iq = "t."
+	case "inner-alias":
+		iq, from = "q.", "t AS q"
+	}
+	var b strings.Builder
+	fmt.Fprintf(&b, "(SELECT %sid, %ss, %sp, %sn FROM %s", iq, iq, iq, iq, from)
+	if f := d.Filter; f != nil && f.K == "plain" {
+		arg := f.Arg
+		if f.Col == "p" {
+			arg = "'" + arg + "'"
+		}
+		fmt.Fprintf(&b, " WHERE %s%s %s %s", iq, f.Col, f.Op, arg)
+	}
+	b.WriteString(") AS d")
+	return b.String()
+}
+
+// fromClause renders FROM <t> [JOIN u [AS v] ON ... [AND cond]], <t> being table t, t AS q or a derived table over t.
 func (c Case) fromClause(cond func(Cond) string) string {
 	_, idq := c.quals()
 	var b strings.Builder
-	b.WriteString(" FROM t")
-	if c.Q.Alias {
-		b.WriteString(" AS q")
+	first, second := c.tableRef(), "u"
+	if c.Q.UAlias {
+		second += " AS v"
 	}
+	if c.Q.Derived != nil && c.Q.Derived.Right && c.Q.Join {
+		first, second = second, first
+	}
+	b.WriteString(" FROM " + first)
 	if c.Q.Join && c.Q.Comma {
 		// table list: the join condition (and what would stand in ON) leads the WHERE clause
-		b.WriteString(", u")
-		if c.Q.UAlias {
-			b.WriteString(" AS v")
-		}
+		b.WriteString(", " + second)
 		b.WriteString(" WHERE ")
 		if c.Q.OnFlip {
 			fmt.Fprintf(&b, "%sref = %sid", c.uq(), idq)
@@ -119,10 +151,7 @@ func (c Case) fromClause(cond func(Cond) string) string {
 		return b.String()
 	}
 	if c.Q.Join {
-		b.WriteString(" JOIN u")
-		if c.Q.UAlias {
-			b.WriteString(" AS v")
-		}
+		b.WriteString(" JOIN " + second)
 		if c.Q.OnFlip {
 			fmt.Fprintf(&b, " ON %sref = %sid", c.uq(), idq)
 		} else {
@@ -195,6 +224,12 @@ func renderPG(c Case) rendered {
 				op = "<>"
 				if k.Bang {
 					op = "!="
+				}
+			}
+			if k.NS {
+				op = "IS NOT DISTINCT FROM"
+				if k.Neg {
+					op = "IS DISTINCT FROM"
 				}
 			}
 			if k.Flip {
@@ -462,7 +497,7 @@ func CheckRewritePG(c Case) (vs hx.Vs) {
 }
 
 func TestRewritePG(t *testing.T) {
-	R.Rule("TestRewritePG", "searchable column configuration (envelope x declared type x failure policy x explicit/implicit client, from the combinations the real loader accepts) + 1-12 stored plaintexts (pool with duplicates, prefixes/extensions of one another, empty, long, NULL, quotes/backslashes) written through a write entry point (SearchableEncryptor, write chain, client-side envelope, translator, library) + SELECT id, s FROM t [AS q] [JOIN u ON ..] WHERE cond; cond from {col op value, value op col} x {=, <>, !=} x {literal spellings, cast, $n text, $n binary} combined with AND/OR/NOT and predicates on plain columns (literal or placeholder). The statement goes through HashQuery.OnQuery (+OnBind on the emitted statement); the emitted statement is executed literally by the typed fake database over the stored values. Oracle: multiset of selected ids = model (three-valued logic over plaintexts); no plaintext marker in the emitted statement/parameters. Non-trivial = a searched value is present AND some row is excluded")
+	R.Rule("TestRewritePG", "searchable column configuration (envelope x declared type x failure policy x explicit/implicit client, from the combinations the real loader accepts) + 1-12 stored plaintexts (pool with duplicates, prefixes/extensions of one another, empty, long, NULL, quotes/backslashes) written through a write entry point (SearchableEncryptor, write chain, client-side envelope, translator, library) + SELECT id, s FROM t [AS q] [JOIN u ON ..] WHERE cond; cond from {col op value, value op col} x {=, <>, !=, IS NOT DISTINCT FROM, IS DISTINCT FROM (null-safe; also with NULL as the value)} x {literal spellings, cast, $n text, $n binary} combined with AND/OR/NOT and predicates on plain columns (literal or placeholder); table t may be read through a derived table, FROM (SELECT id, s, p, n FROM t | t.id, .. FROM t | q.id, .. FROM t AS q [WHERE plain condition]) AS d [JOIN u | u JOIN d | table list], conditions on d.s (with an unconfigured u no table named in the outer FROM has a schema). The statement goes through HashQuery.OnQuery (+OnBind on the emitted statement); the emitted statement is executed literally by the typed fake database over the stored values. Oracle: multiset of selected ids = model (three-valued logic over plaintexts; null-safe comparisons are never unknown: two NULLs equal, NULL and a value distinct; rows failing the condition inside a derived table are not part of it); no plaintext marker in the emitted statement/parameters. Non-trivial = a searched value is present AND some row is excluded")
 	hx.Checks(500, 6000)
 	rapid.Check(t, func(rt *rapid.T) {
 		c := genCase(rt, genOpts{})
